@@ -169,7 +169,28 @@ def run(ctx):
             if o == 'Pow' and not pow_ok(l, r):
                 continue        # "numbers of moderate magnitude": keep x**y computable
             calls.append((l, i, o, r))
+    # neighbouring doubles (seeded change C10-eq-isclose-numbers: '=' made tolerant while '<' stayed exact): the six
+    # comparisons of a double with the next double up / down go through the model and the oracles like every other call
+    import math
+    near_bases = [0.3, 0.1 + 0.2, 1.0, -2.5, 123456.789, 1e15, 5e-324, 0.7 - 0.4, 2.0 ** 52, -1e-7] + \
+        [ctx.rng.uniform(-1000, 1000) for _ in range(ctx.n(10, 200))]
+    near_pairs = []
+    for a in near_bases:
+        for b in (math.nextafter(a, math.inf), math.nextafter(a, -math.inf)):
+            near_pairs += [(a, b), (b, a)]
+    for l, r in near_pairs:
+        for i, o in enumerate(OPS):
+            if o in CMP:
+                calls.append((l, i, o, r))
     impl = [run_impl(fixup, l, o, r) for (l, i, o, r) in calls]
+    for l, r in near_pairs:
+        res = {o: run_impl(fixup, l, o, r) for o in CMP}
+        ctx.count(('near', repr(l), repr(r)), kind='oracle-cmp-neighbouring-doubles')
+        want = {'Eq': False, 'NotEq': True, 'Lt': l < r, 'LtE': l < r, 'Gt': l > r, 'GtE': l > r}
+        if any(res[o] != ('ok', want[o]) for o in CMP):
+            ctx.violation(dict(call='fixup', args=[l, 'cmp', r], oracle='neighbouring doubles'),
+                          "two different numbers: not exactly one of <, =, > holds / complements",
+                          impl={o: res[o] for o in CMP}, expected=want)
     # an operator is a function of its operands: the same application through a fresh closure
     for (l, i, o, r), im in zip(calls[:n_twin_calls], impl[:n_twin_calls]):
         alone = run_impl(build_operator_operand_fixup(lambda *a: None), l, o, r)
